@@ -585,6 +585,12 @@ func BFS[I any](c *Ctx, newInst func() I, nOps int, apply func(inst I, op int, s
 	for d := 1; d <= depth && len(frontier) > 0; d++ {
 		var next [][]int
 		for _, h := range frontier {
+			// a BFS is one long execution: tell the hang watchdog it is alive
+			watchdogMu.Lock()
+			if !watchdogAt.IsZero() {
+				watchdogAt = time.Now()
+			}
+			watchdogMu.Unlock()
 			if !c.st.deadline.IsZero() && time.Now().After(c.st.deadline) {
 				exhaustive = false
 				break
